@@ -381,7 +381,7 @@ func TestC07_Agreement(t *testing.T) {
 	rec.AddRule(c07Rule)
 	c07Assumptions(rec)
 	var inconclusive string
-	runRapid(t, N(260, 14000), func(rt *rapid.T) {
+	runRapid(t, N(360, 24000), func(rt *rapid.T) {
 		if inconclusive != "" {
 			return
 		}
